@@ -96,7 +96,11 @@ impl<const D: usize> ToroidalSpace<D> {
         if !v_f64.is_finite() {
             return None;
         }
-        let wrapped = v_f64.rem_euclid(period);
+        let mut wrapped = v_f64.rem_euclid(period);
+        // `rem_euclid` can round up to `period` itself; keep the half-open box [0, period).
+        if wrapped >= period {
+            wrapped = 0.0;
+        }
         <T as NumCast>::from(wrapped)
     }
 }
@@ -116,6 +120,9 @@ impl<const D: usize> TopologicalSpace for ToroidalSpace<D> {
         for (coord, &period) in coords.iter_mut().zip(self.domain.iter()) {
             if period.is_finite() && period > 0.0 {
                 *coord = coord.rem_euclid(period);
+                if *coord >= period {
+                    *coord = 0.0;
+                }
             }
         }
     }
